@@ -72,7 +72,7 @@ def _c10_minima(tier):
 def _c11_minima(tier):
     th = tier == 'thorough'
     m = {'c11.truth.regular': 100000 if th else 6000, 'c11.truth.singular': 12000 if th else 700,
-         'c11.regular_but_double_rounding_singular': 6000 if th else 400, 'c11.singular_but_double_rounding_regular': 4000 if th else 250,
+         'c11.regular_but_double_rounding_singular': 6000 if th else 400, 'c11.singular_but_double_rounding_regular': 2500 if th else 150,
          'c11.bits.gt128': 20000 if th else 1000, 'c11.sparse_result.setup_checked': 200000 if th else 10000,
          'c11.multi_rhs_4update_cases': 10000 if th else 500, 'distinct:nontrivial': 3000 if th else 1000}
     for v in ('solveRight.dense', 'solveRight.sparse', 'solveLeft.dense', 'solveLeft.sparse', 'solveLeft2.x', 'solveLeft3.x', 'solveRight4update'):
